@@ -31,6 +31,7 @@ def main():
         except Exception as e:
             print(json.dumps({'error': 'group %s crashed: %r' % (g, e)}))
             return 1
+    props.layout_guard(prog, R)
     known = set(k['key'] for k in chk.load_known() if k.get('status') == 'known')
     out = {}
     for pid, sp in props.PROPS.items():
